@@ -79,6 +79,45 @@ def same_dt(a, b):
 
 # ----------------------------------------------------------------------------- judges per type
 
+class _SubDate(date):
+    pass
+
+
+class _SubDatetime(datetime):
+    pass
+
+
+class _SubTime(time):
+    pass
+
+
+class _SubDelta(timedelta):
+    pass
+
+
+def j_combined_and_subclasses(x, t, what, out):
+    """the combined encoder writes what the encoder of the type writes - also for an instance of a subclass (pandas.Timestamp,
+    pendulum and freezegun types, a user's own class are datetime/date/timedelta by isinstance, not by type)"""
+    t2 = txt(vDDDTypes(x).to_ical())
+    if t2 != t:
+        out.append(Failure("C03.roundtrip", f"roundtrip/{what}-via-vDDDTypes", f"{x!r}: {t!r} vs {t2!r}"))
+    if what == "date":
+        sub, cls = _SubDate(x.year, x.month, x.day), vDate
+    elif what == "datetime":
+        sub, cls = _SubDatetime(x.year, x.month, x.day, x.hour, x.minute, x.second, tzinfo=x.tzinfo), vDatetime
+    elif what == "time":
+        sub, cls = _SubTime(x.hour, x.minute, x.second, tzinfo=x.tzinfo), vTime
+    else:
+        sub, cls = _SubDelta(days=x.days, seconds=x.seconds), vDuration
+    for how, enc in (("vDDDTypes", vDDDTypes), (cls.__name__, cls)):
+        try:
+            t3 = txt(enc(sub).to_ical())
+        except Exception as e:  # noqa: BLE001
+            t3 = "raises " + exc_signature(e)
+        if t3 != t:
+            out.append(Failure("C03.roundtrip", f"subclass-instance-encodes-differently/{what}/{how}", f"{sub!r}: {t3!r} expected {t!r}"))
+
+
 def j_date(d, out):
     t = grammar("date", vDate(d).to_ical(), out)
     back = vDate.from_ical(t)
@@ -87,9 +126,12 @@ def j_date(d, out):
     c = vDDDTypes.from_ical(t)
     if type(c) is not date or c != d:
         out.append(Failure("C03.classify", "classify/date", f"{t!r} -> {c!r}"))
-    t2 = txt(vDDDTypes(d).to_ical())
-    if t2 != t:
-        out.append(Failure("C03.roundtrip", "roundtrip/date-via-vDDDTypes", f"{t!r} vs {t2!r}"))
+    if d.day in (1, 29) or d.toordinal() % 97 == 0:
+        j_combined_and_subclasses(d, t, "date", out)
+    else:
+        t2 = txt(vDDDTypes(d).to_ical())
+        if t2 != t:
+            out.append(Failure("C03.roundtrip", "roundtrip/date-via-vDDDTypes", f"{t!r} vs {t2!r}"))
 
 
 def j_datetime(dt, out):
@@ -102,6 +144,8 @@ def j_datetime(dt, out):
     c = vDDDTypes.from_ical(t)
     if not same_dt(c, dt):
         out.append(Failure("C03.classify", "classify/datetime", f"{t!r} -> {c!r}"))
+    if dt.second % 5 == 0:
+        j_combined_and_subclasses(dt, t, "datetime", out)
 
 
 def j_time(tm, out):
@@ -115,6 +159,8 @@ def j_time(tm, out):
     c = vDDDTypes.from_ical(t)
     if type(c) is not time or c.replace(tzinfo=None) != tm.replace(tzinfo=None):
         out.append(Failure("C03.classify", "classify/time", f"{t!r} -> {c!r}"))
+    if tm.second % 5 == 0:
+        j_combined_and_subclasses(tm, t, "time", out)
 
 
 def j_offset(td, out):
@@ -134,6 +180,8 @@ def j_duration(td, out):
         out.append(Failure("C03.classify", "classify/duration", f"{t!r} -> {c!r}"))
     if ref_duration(t) != td:
         out.append(Failure("C03.grammar", "grammar/duration-denotes-other-value", f"{td!r} -> {t!r} denotes {ref_duration(t)!r}"))
+    if td.seconds % 5 == 0:
+        j_combined_and_subclasses(td, t, "duration", out)
 
 
 def ref_duration(t):
@@ -174,6 +222,13 @@ def j_zoned_text(case, out):
         sut.reset(provider)
         want_off, kind = rfc_local(provider, zone, wall)
         via = case["via"]
+        if case.get("tzarg") == "object":
+            # the time zone reference given as a tzinfo object of the active provider's own library instead of its id
+            import pytz
+            import zoneinfo
+            zone = pytz.timezone(zone) if provider == "pytz" else zoneinfo.ZoneInfo(zone)
+            if via == "component":
+                via = "vDDDTypes"
         if via == "vDatetime":
             got = vDatetime.from_ical(text, zone)
         elif via == "vDDDTypes":
@@ -183,6 +238,7 @@ def j_zoned_text(case, out):
         else:
             from icalendar import Event
             got = Event.from_ical(f"BEGIN:VEVENT\r\nDTSTART;TZID={zone}:{text}\r\nEND:VEVENT\r\n")["DTSTART"].dt
+        zone = case["tz"]
         tag = f"@{kind}-local-time/{provider}"
         if not isinstance(got, datetime) or got.tzinfo is None or got.replace(tzinfo=None) != datetime(*wall):
             out.append(Failure("C03.rfc-value" + tag, "zoned-text-wall-or-awareness-differs/" + via, f"{text!r} {zone}: {got!r}"))
@@ -411,7 +467,7 @@ def info(case):
     classes = []
     if k == "zoned-text":
         kinds = sorted({rfc_local(p, case["tz"], case["wall"])[1] for p in sut.PROVIDERS})
-        return {"nontrivial": kinds != ["plain"], "classes": ["t:zoned-text", "via:" + case["via"]] + ["local-time:" + x for x in kinds]}
+        return {"nontrivial": kinds != ["plain"], "classes": ["t:zoned-text", "via:" + case["via"], "tz-given-as:" + case.get("tzarg", "id")] + ["local-time:" + x for x in kinds]}
     if k == "date-block":
         w = case["n"]
         classes = ["t:date"]
@@ -628,7 +684,8 @@ def _zoned_texts(draw):
             w = datetime(2021, 10, 31, 2, 30)
     else:
         w = datetime(draw(st.integers(1900, 2099)), draw(st.integers(1, 12)), draw(st.integers(1, 28)), draw(st.integers(0, 23)), draw(st.integers(0, 59)), draw(st.integers(0, 59)))
-    return {"t": "zoned-text", "tz": zone, "wall": [w.year, w.month, w.day, w.hour, w.minute, w.second], "via": draw(st.sampled_from(["vDatetime", "vDDDTypes", "vPeriod", "component"]))}
+    return {"t": "zoned-text", "tz": zone, "wall": [w.year, w.month, w.day, w.hour, w.minute, w.second], "via": draw(st.sampled_from(["vDatetime", "vDDDTypes", "vPeriod", "component"])),
+            "tzarg": draw(st.sampled_from(["id", "id", "object"]))}
 
 
 def streams(tier):
